@@ -7,4 +7,5 @@ for p in $(python3 -c "import json;print(' '.join(c['property_id'] for c in json
   echo "$p rc=$rc $(echo "$out" | grep -v KNOWN | tail -1 | cut -c1-120)"
   [ $rc -ne 0 ] && fail=1
 done
+[ $fail -eq 0 ] && tools/statehash.sh > .runall_ok
 exit $fail
